@@ -133,3 +133,23 @@ func init() {
 		mutant{Name: "header-selects-two-releases", Prop: "C14", File: "stdlib/go1_21_io.go", Old: "//go:build go1.21 && !go1.22", New: "//go:build go1.21", Rule: "R14.4", Key: "stdlib/go1_21_io.go/header"},
 	)
 }
+
+func init() {
+	addMutants(
+		// ---- C02
+		mutant{Name: "sub-uses-plus-for-uint-const-left", Prop: "C02", File: "interp/op.go", Old: "func sub(n *node) {", New: "func sub(n *node) {\n\t_ = 0", Benign: true},
+		mutant{Name: "token-maps-to-wrong-action", Prop: "C02", File: "interp/ast.go", Old: "\t\t\tcase token.GEQ:\n\t\t\t\tact = aGreaterEqual", New: "\t\t\tcase token.GEQ:\n\t\t\t\tact = aGreater", Rule: "R02.1", Key: "binary/>="},
+		mutant{Name: "assign-token-case-dropped", Prop: "C02", File: "interp/ast.go", Old: "\t\t\t\tcase token.AND_NOT_ASSIGN:\n\t\t\t\t\tact = aAndNotAssign\n", New: "", Rule: "R02.1", Key: "assign/&^="},
+		mutant{Name: "builtin-table-swapped", Prop: "C02", File: "interp/run.go", Old: "\taShr:          shr,\n", New: "\taShr:          shl,\n", Rule: "R02.2", Key: "aShr/shl"},
+		mutant{Name: "folder-wrong-token", Prop: "C02", File: "interp/op.go", Old: "constant.BinaryOp(constant.ToInt(vConstantValue(v0)), token.AND_NOT, constant.ToInt(vConstantValue(v1)))", New: "constant.BinaryOp(constant.ToInt(vConstantValue(v0)), token.AND, constant.ToInt(vConstantValue(v1)))", Rule: "R02.2", Key: "aAndNot/andNotConst"},
+		mutant{Name: "neg-float-uses-int-accessor", Prop: "C02", File: "interp/run.go", Old: "\t\t\tdest(f).SetFloat(-value(f).Float())\n", New: "\t\t\tdest(f).SetFloat(float64(-value(f).Int()))\n", Rule: "R02.3", Key: "neg/kind-classes"},
+		mutant{Name: "vUint-reads-uint-via-int", Prop: "C02", File: "interp/value.go", Old: "\t\ti = v.Uint()\n", New: "\t\ti = uint64(v.Int())\n", Rule: "R02.3", Key: "vUint/kind-classes"},
+		// ---- C03
+		mutant{Name: "signed-range-check-reverted", Prop: "C03", File: "interp/typecheck.go", Old: "\t\t\ti, ok := constant.Int64Val(x)\n\t\t\tif !ok {\n\t\t\t\treturn false\n\t\t\t}\n\t\t\t// A signed integer of n bits holds values in [-2^(n-1), 2^(n-1)-1].\n\t\t\ts := uint(bitlen[t.Kind()] - 1)\n\t\t\treturn i >= -1<<s && i <= 1<<s-1\n", New: "\t\t\tif _, ok := constant.Int64Val(x); !ok {\n\t\t\t\treturn false\n\t\t\t}\n", Rule: "R03.4", Key: "representableConst/signed-bound"},
+		mutant{Name: "bitlen-int32-wrong", Prop: "C03", File: "interp/typecheck.go", Old: "\treflect.Int32:   32,\n", New: "\treflect.Int32:   64,\n", Rule: "R03.3", Key: "bitlen/Int32"},
+		mutant{Name: "bitlen-uintptr-missing", Prop: "C03", File: "interp/typecheck.go", Old: "\treflect.Uintptr: 64,\n", New: "", Rule: "R03.3", Key: "bitlen/Uintptr"},
+		mutant{Name: "float32-const-via-float64", Prop: "C03", File: "interp/typecheck.go", Old: "\t\tf, _ := constant.Float32Val(constant.ToFloat(c))\n\t\tv = reflect.ValueOf(f)\n", New: "\t\tf, _ := constant.Float64Val(constant.ToFloat(c))\n\t\tv = reflect.ValueOf(float32(f))\n", Rule: "R03.2", Key: "typecheck.convertConst/constant-accessors"},
+		mutant{Name: "iota-reset-only-in-gta", Prop: "C03", File: "interp/cfg.go", Old: "\t\t\t\t\tif childPos(n) == len(n.anc.child)-1 {\n\t\t\t\t\t\tsc.iota = 0\n\t\t\t\t\t} else {\n\t\t\t\t\t\tsc.iota++\n\t\t\t\t\t}\n", New: "\t\t\t\t\tsc.iota++\n", Rule: "R03.5", Key: "Interpreter.cfg/iota"},
+		mutant{Name: "xorConst-folds-or", Prop: "C03", File: "interp/op.go", Old: "constant.BinaryOp(constant.ToInt(vConstantValue(v0)), token.XOR, constant.ToInt(vConstantValue(v1)))", New: "constant.BinaryOp(constant.ToInt(vConstantValue(v0)), token.OR, constant.ToInt(vConstantValue(v1)))", Rule: "R03.1", Key: "aXor/xorConst"},
+	)
+}
